@@ -425,14 +425,15 @@ Theorem C01_flange1_encloses : forall distance centerRadius sideRadius o,
   @k_flange1 ROps distance centerRadius sideRadius = Some o -> enc2 o.
 Proof. exact flange1_enc. Qed.
 Print Assumptions C01_flange1_encloses.
-(* ThreeArcCam2D checks flankRadius >= (baseRadius + distance + noseRadius) / 2 only; the theorem needs the
-   strict inequality (at equality the flank centre is on the axis and the cam is the flank circle), circles
-   that are not nested, and is about the repaired box (6b60422: the flank arc may bulge beyond both circles) *)
+(* ThreeArcCam2D checks flankRadius >= (baseRadius + distance + noseRadius) / 2 only; missing: circles that are not
+   nested (otherwise the flank centre is the square root of a negative number).  Every accepted flank radius:
+   above the minimum the flank arc is compared through cross products (all directions have a positive x
+   component), at the minimum the flank centre is on the axis and the cam is the flank circle.  About the
+   repaired box (6b60422: the flank arc may bulge beyond both circles) *)
 Theorem C01_threearccam_encloses : forall distance baseRadius noseRadius flankRadius o,
   0 < distance -> 0 <= baseRadius -> 0 <= noseRadius -> Rabs (baseRadius - noseRadius) < distance ->
-  (baseRadius + distance + noseRadius) / 2 < flankRadius ->
   @k_threearccam ROps distance baseRadius noseRadius flankRadius = Some o -> enc2 o.
-Proof. exact threearccam_enc. Qed.
+Proof. exact threearccam_enc_all. Qed.
 Print Assumptions C01_threearccam_encloses.
 (* ArcSpiral2D checks a <> 0 and start <> end; every slope, offset k (negative polar radii included),
    angle range of either order and sign, any band half-width d >= 0.  The two `for` loops of Evaluate are
@@ -465,7 +466,7 @@ Proof. exact (fun p W o H => prim2_enc _ o (prim2_wfb_sound p W) H). Qed.
 Print Assumptions C01_prim2_check_sound.
 (* hypotheses satisfiable: the cams of examples/benchmark, a spiral through the centre, a cam with the larger nose *)
 Example C01_ex_prims :
-  (prim2_wfb (PFlatFlankCam (O := QOps) 30 20 5) = true /\ prim2_wfb (PThreeArcCam (O := QOps) 30 20 5 200) = true /\
+  (prim2_wfb (PFlatFlankCam (O := QOps) 30 20 5) = true /\ prim2_wfb (PThreeArcCam (O := QOps) 30 20 5 (55 # 2)) = true /\
    prim2_wfb (PFlange1 (O := QOps) (13 # 32) (5 # 16) (5 # 32)) = true /\ prim2_wfb (PArcSpiral (O := QOps) 1 (-(10)) 0 12 (1 # 2)) = true /\
    prim2_wfb (PFlatFlankCam (O := QOps) 10 2 5) = true)%Q.
 Proof. vm_compute. repeat split. Qed.
